@@ -222,6 +222,23 @@ def from_tla(v):
     series <<z0, z1, z2, z3>> (jets variant) is read as its value z0."""
     if len(v) == 4:
         v = v[0]
+    if v and isinstance(v[0][0], (list, tuple)):
+        # series domain: a polynomial c0 + c1 L + ... in the atom L = ln 2 (spec/jets/CLbase.tla)
+        cs = [_coef(c) for c in v]
+        if any(c is None for c in cs):
+            return None
+        if len(cs) == 1:
+            return cs[0]
+        import math
+
+        tot = complex(0)
+        for k, c in enumerate(cs):
+            tot += complex(c) * math.log(2.0) ** k
+        return Cx(tot.real, tot.imag)
+    return _coef(v)
+
+
+def _coef(v):
     (rn, rd), (in_, id_) = v
     if rd == 0 or id_ == 0:
         return None
